@@ -263,6 +263,86 @@ Proof.
     exact IH'.
 Qed.
 
+Lemma util_walk_segments segs : forall pre m prec h w tail rest fuel,
+  forallb seg_ok segs = true -> is_sof m = true ->
+  0 <= h < 65536 -> 0 <= w < 65536 -> len tail < 65529 -> 1 <= len tail + len rest ->
+  (List.length segs < fuel)%nat ->
+  jpeg_dims fuel
+    (pre ++ List.concat (map (fun mp => jseg (fst mp) (snd mp)) segs) ++ jseg m (sof_payload prec h w tail) ++ rest)
+    (len pre) = Some (Found w h).
+Proof.
+  induction segs as [|[m0 p0] segs IH]; intros pre m prec h w tail rest fuel Hs Hm Hh Hw Ht Hone Hf.
+  - destruct fuel as [|f]; [simpl in Hf; lia|]. cbn [map List.concat app jpeg_dims].
+    set (P := sof_payload prec h w tail).
+    set (d := pre ++ jseg m P ++ rest).
+    assert (HlP : len P = 5 + len tail) by (subst P; unfold sof_payload, be16; len_explicit).
+    pose proof (len_nonneg tail) as Htn. pose proof (len_nonneg rest) as Hrn. pose proof (len_nonneg pre) as Hpn.
+    assert (Hld : len d = len pre + 4 + len P + len rest) by (unfold d; rewrite !len_app, jseg_len; lia).
+    destruct (jseg_bytes m P rest ltac:(lia)) as [B0 [B1 B2]].
+    assert (A0 : byte_at d (len pre) = 255) by (replace (len pre) with (len pre + 0) by lia; unfold d; rewrite byte_at_app_r by lia; exact B0).
+    assert (A1 : byte_at d (len pre + 1) = m) by (unfold d; rewrite byte_at_app_r by lia; exact B1).
+    assert (A2 : u16be d (len pre + 2) = 2 + len P).
+    { unfold u16be. replace (len pre + 2 + 1) with (len pre + (2 + 1)) by lia. unfold d. rewrite !byte_at_app_r by lia. exact B2. }
+    assert (A5 : u16be d (len pre + 5) = h).
+    { unfold u16be. replace (len pre + 5 + 1) with (len pre + 6) by lia. unfold d. rewrite !byte_at_app_r by lia.
+      unfold P. unfold jseg, sof_payload, be16.
+      change (byte_at ((255 :: m :: [(2 + len (prec :: [h / 256; h mod 256] ++ [w / 256; w mod 256] ++ tail)) / 256;
+                (2 + len (prec :: [h / 256; h mod 256] ++ [w / 256; w mod 256] ++ tail)) mod 256] ++
+                prec :: [h / 256; h mod 256] ++ [w / 256; w mod 256] ++ tail) ++ rest) 5) with (h / 256).
+      change (byte_at ((255 :: m :: [(2 + len (prec :: [h / 256; h mod 256] ++ [w / 256; w mod 256] ++ tail)) / 256;
+                (2 + len (prec :: [h / 256; h mod 256] ++ [w / 256; w mod 256] ++ tail)) mod 256] ++
+                prec :: [h / 256; h mod 256] ++ [w / 256; w mod 256] ++ tail) ++ rest) 6) with (h mod 256).
+      lia. }
+    assert (A7 : u16be d (len pre + 7) = w).
+    { unfold u16be. replace (len pre + 7 + 1) with (len pre + 8) by lia. unfold d. rewrite !byte_at_app_r by lia.
+      unfold P. unfold jseg, sof_payload, be16.
+      change (byte_at ((255 :: m :: [(2 + len (prec :: [h / 256; h mod 256] ++ [w / 256; w mod 256] ++ tail)) / 256;
+                (2 + len (prec :: [h / 256; h mod 256] ++ [w / 256; w mod 256] ++ tail)) mod 256] ++
+                prec :: [h / 256; h mod 256] ++ [w / 256; w mod 256] ++ tail) ++ rest) 7) with (w / 256).
+      change (byte_at ((255 :: m :: [(2 + len (prec :: [h / 256; h mod 256] ++ [w / 256; w mod 256] ++ tail)) / 256;
+                (2 + len (prec :: [h / 256; h mod 256] ++ [w / 256; w mod 256] ++ tail)) mod 256] ++
+                prec :: [h / 256; h mod 256] ++ [w / 256; w mod 256] ++ tail) ++ rest) 8) with (w mod 256).
+      lia. }
+    rewrite A0, A1, Hm.
+    assert (Hnff : (m =? 255) = false).
+    { destruct (m =? 255) eqn:E1; [apply Z.eqb_eq in E1; rewrite E1 in Hm; vm_compute in Hm; discriminate | reflexivity]. }
+    rewrite Hnff.
+    destruct (len pre <? len d - 9) eqn:E4; [|lia].
+    change (255 =? 255) with true. cbn [negb].
+    destruct (len pre + 9 <=? len d) eqn:E6; [|lia]. cbn [andb].
+    rewrite A5, A7. reflexivity.
+  - destruct fuel as [|f]; [simpl in Hf; lia|].
+    cbn [map List.concat fst snd]. cbn [forallb] in Hs. apply andb_true_iff in Hs as [Hs0 Hs].
+    unfold seg_ok in Hs0. cbn [fst snd] in Hs0. apply andb_true_iff in Hs0 as [Hk Hlp]. apply Z.ltb_lt in Hlp.
+    set (R := List.concat (map (fun mp => jseg (fst mp) (snd mp)) segs) ++ jseg m (sof_payload prec h w tail) ++ rest).
+    assert (Hd : pre ++ (jseg m0 p0 ++ List.concat (map (fun mp => jseg (fst mp) (snd mp)) segs)) ++ jseg m (sof_payload prec h w tail) ++ rest
+                 = (pre ++ jseg m0 p0) ++ R) by (subst R; rewrite <- !app_assoc; reflexivity).
+    rewrite Hd.
+    assert (IH' := IH (pre ++ jseg m0 p0) m prec h w tail rest f Hs Hm Hh Hw Ht Hone ltac:(simpl in Hf; lia)).
+    fold R in IH'.
+    set (d := (pre ++ jseg m0 p0) ++ R) in *.
+    pose proof (len_nonneg p0) as Hp0. pose proof (len_nonneg R) as HRn. pose proof (len_nonneg pre) as Hpn.
+    assert (Hld : len d = len pre + 4 + len p0 + len R) by (unfold d; rewrite !len_app, jseg_len; lia).
+    assert (Hd2 : d = pre ++ (jseg m0 p0 ++ R)) by (unfold d; rewrite <- app_assoc; reflexivity).
+    destruct (jseg_bytes m0 p0 R ltac:(lia)) as [B0 [B1 B2]].
+    assert (A0 : byte_at d (len pre) = 255) by (replace (len pre) with (len pre + 0) by lia; rewrite Hd2, byte_at_app_r by lia; exact B0).
+    assert (A1 : byte_at d (len pre + 1) = m0) by (rewrite Hd2, byte_at_app_r by lia; exact B1).
+    assert (A2 : u16be d (len pre + 2) = 2 + len p0).
+    { unfold u16be. replace (len pre + 2 + 1) with (len pre + (2 + 1)) by lia. rewrite Hd2, !byte_at_app_r by lia. exact B2. }
+    assert (HlR : 9 + len tail + len rest <= len R).
+    { unfold R. rewrite !len_app, jseg_len. pose proof (len_nonneg (List.concat (map (fun mp : Z * list Z => jseg (fst mp) (snd mp)) segs))).
+      assert (len (sof_payload prec h w tail) = 5 + len tail) by (unfold sof_payload, be16; len_explicit). lia. }
+    cbn [jpeg_dims]. rewrite A0, A1, A2.
+    unfold skip_marker in Hk. apply andb_true_iff in Hk as [Hk Hk4]. apply andb_true_iff in Hk as [Hk Hk3].
+    apply andb_true_iff in Hk as [Hk1 Hk2].
+    apply negb_true_iff in Hk1, Hk4. rewrite Hk1, Hk4.
+    destruct (len pre <? len d - 9) eqn:E4; [|lia].
+    change (255 =? 255) with true. cbn [negb andb].
+    destruct (len pre + 4 <=? len d) eqn:E5; [|lia].
+    replace (len pre + 2 + (2 + len p0)) with (len (pre ++ jseg m0 p0)) by (rewrite len_app, jseg_len; lia).
+    exact IH'.
+Qed.
+
 Lemma concat_segs_len segs : 4 * Z.of_nat (List.length segs) <= len (List.concat (map (fun mp : Z * list Z => jseg (fst mp) (snd mp)) segs)).
 Proof.
   induction segs as [|[m p] segs IH]; [unfold len; simpl; lia|].
@@ -286,6 +366,24 @@ Proof.
   unfold ooxml_dims. rewrite Hp, Hg, Hb, Hj. cbn [andb].
   destruct (len d =? 0) eqn:E0; [lia|].
   assert (W := ooxml_walk_segments segs SOI m prec h w tail rest (fuel_for d 2) Hs Hm Hh Hw Ht).
+  change (len SOI) with 2 in W. fold d in W. rewrite W; [reflexivity|].
+  unfold fuel_for. lia.
+Qed.
+
+(* util/image_utils.get_jpeg_dimensions: the walk needs at least one byte after the 9 bytes it reads of the SOF
+   segment (`offset < len(data) - 9`) — true of every real JPEG (component table, SOS, EOI follow) *)
+Lemma jpeg_header_ok_util segs m prec h w tail rest :
+  forallb seg_ok segs = true -> is_sof m = true ->
+  0 <= h < 65536 -> 0 <= w < 65536 -> len tail < 65529 -> 1 <= len tail + len rest ->
+  util_dims K_jpeg (jpeg_file segs m prec h w tail rest) = Dims (Some w) (Some h).
+Proof.
+  intros Hs Hm Hh Hw Ht Hone. unfold jpeg_file. fold (sof_payload prec h w tail).
+  set (d := SOI ++ List.concat (map (fun mp => jseg (fst mp) (snd mp)) segs) ++ jseg m (sof_payload prec h w tail) ++ rest).
+  assert (Hl : 2 + 4 * Z.of_nat (List.length segs) + 4 <= len d).
+  { unfold d. rewrite !len_app, jseg_len. pose proof (concat_segs_len segs). pose proof (len_nonneg rest).
+    pose proof (len_nonneg (sof_payload prec h w tail)). change (len SOI) with 2. lia. }
+  unfold util_dims. destruct (4 <=? len d) eqn:E0; [|lia].
+  assert (W := util_walk_segments segs SOI m prec h w tail rest (fuel_for d 2) Hs Hm Hh Hw Ht Hone).
   change (len SOI) with 2 in W. fold d in W. rewrite W; [reflexivity|].
   unfold fuel_for. lia.
 Qed.
